@@ -34,6 +34,15 @@ Proof.
 Qed.
 Print Assumptions C06_versions_close.
 
+Theorem C06_versions_close_no_wraparound : forall P k0 k1 t s,
+  mp_parts P = [k0; k1] -> good_init k0 k1 t -> reachable P t s ->
+  cur_ver s PA < two64 - 1 -> cur_ver s PB < two64 - 1 ->
+  cur_ver s PA = cur_ver s PB \/ cur_ver s PA = cur_ver s PB + 1 \/ cur_ver s PB = cur_ver s PA + 1.
+Proof.
+  intros P k0 k1 t s HP I R. exact (versions_close_nowrap_GI P k0 k1 s (GI_reachable P k0 k1 HP t s I R)).
+Qed.
+Print Assumptions C06_versions_close_no_wraparound.
+
 (* Agreement: among all states that ever became fully signed in either machine (the ghost logs, see
    C06_full_logged) no two different states have the same version — as long as no fully signed state
    has reached version 2^64-1 (after which the uint64 version wraps around). *)
@@ -44,6 +53,20 @@ Proof.
   intros P k0 k1 t s HP I R. exact (agreement_GI P k0 k1 s (GI_reachable P k0 k1 HP t s I R)).
 Qed.
 Print Assumptions C06_agreement.
+
+(* Why: a party signs as responder only the successor (version + 1, uint64) of its own current,
+   non-final state, and every state it signed as responder is in its log — so by C06_agreement it signs
+   as responder at most one state per version; C06_mutex: it never responds while a proposal of its own
+   holds the machine mutex. *)
+Theorem C06_responder_signs_successor : forall P k0 k1 t s p st,
+  mp_parts P = [k0; k1] -> good_init k0 k1 t -> reachable P t s ->
+  (ctl (getp s p) = RSent st \/ exists g, ctl (getp s p) = RSigned st g) ->
+  exists c, current (mc (getp s p)) = Some c /\ st_final (tx_st c) = false
+            /\ st_ver st = wrap64 (st_ver (tx_st c) + 1) /\ In st (flog (getp s p)).
+Proof.
+  intros P k0 k1 t s p st HP I R. exact (resp_signed_GI P k0 k1 s p st (GI_reachable P k0 k1 HP t s I R)).
+Qed.
+Print Assumptions C06_responder_signs_successor.
 
 (* ... and the logs are complete: whenever a machine holds a staged or current transaction with all
    signatures, its state is in that party's log. *)
